@@ -2,6 +2,7 @@
 // DSO image and is reset for every run.
 #include "tbb/tbbstub.h"
 
+#include <sched.h>
 #include <pthread.h>
 #include <unistd.h>
 
@@ -26,6 +27,10 @@ thread_local int tl_depth = 0;   // this thread is inside run_parallel
 
 int default_parallelism()
 {
+  // like the real library: the CPUs this process may run on (affinity mask), not the CPUs that are online
+  cpu_set_t set;
+  if (sched_getaffinity(0, sizeof set, &set) == 0 && CPU_COUNT(&set) > 0)
+    return CPU_COUNT(&set);
   long n = sysconf(_SC_NPROCESSORS_ONLN);
   return n > 0 ? (int)n : 1;
 }
